@@ -238,19 +238,19 @@ theorem monitor_rules_eavesdrop : ∀ (texts : List Bytes) (rules : List MatchRu
   reply involves a monitor, and the induction over histories. -/
 
 theorem gate_ignores_monitors (b : Bus) (s a p : Option ConnId) (m : Msg) :
-    checkPolicy (shade b) s a p m = checkPolicy b s a p m := checkPolicy_shade b s a p m
+    checkPolicy (shade none b) s a p m = checkPolicy b s a p m := checkPolicy_shade b s a p m
 
 theorem others_observe_the_same_partial (b : Bus) (c : ConnId) (m : Msg) :
-    (route { bus := shade b } c m).1.out = (route { bus := b } c m).1.out ∧
-    (route { bus := shade b } c m).2 = (route { bus := b } c m).2 ∧
-    (route { bus := shade b } c m).1.bus = shade (route { bus := b } c m).1.bus := by
-  have h := shadow_route (t := { bus := b }) (t' := { bus := shade b }) ⟨rfl, rfl⟩ c m
+    (route { bus := shade none b } c m).1.out = (route { bus := b } c m).1.out ∧
+    (route { bus := shade none b } c m).2 = (route { bus := b } c m).2 ∧
+    (route { bus := shade none b } c m).1.bus = shade none (route { bus := b } c m).1.bus := by
+  have h := shadow_route (t := { bus := b }) (t' := { bus := shade none b }) ⟨rfl, rfl⟩ c m
   exact ⟨h.1.2, h.2, h.1.1⟩
 
 theorem driver_sends_the_same_partial (b : Bus) (to : ConnId) (m : Msg) :
-    (sendFromDriver { bus := shade b } to m).out = (sendFromDriver { bus := b } to m).out ∧
-    (sendFromDriver { bus := shade b } to m).bus = shade (sendFromDriver { bus := b } to m).bus := by
-  have h := shadow_sendFromDriver (t := { bus := b }) (t' := { bus := shade b }) ⟨rfl, rfl⟩ to m
+    (sendFromDriver { bus := shade none b } to m).out = (sendFromDriver { bus := b } to m).out ∧
+    (sendFromDriver { bus := shade none b } to m).bus = shade none (sendFromDriver { bus := b } to m).bus := by
+  have h := shadow_sendFromDriver (t := { bus := b }) (t' := { bus := shade none b }) ⟨rfl, rfl⟩ to m
   exact ⟨h.2, h.1⟩
 
 /-- a whole step of the bus for peer traffic (everything but calls to the bus driver): same ordinary output, same state
@@ -258,8 +258,8 @@ theorem driver_sends_the_same_partial (b : Bus) (to : ConnId) (m : Msg) :
 theorem peer_traffic_step_ignores_monitors_partial (tbl : List IfaceRow) (b : Bus) (c : ConnId) (x : Conn) (m0 : Msg)
     (hx : b.conn? c = some x) (hmon : x.monitor = false) (hname : x.name.isSome = true)
     (hdest : ((strip m0).setSender (senderNameOf b c)).dest ≠ some BUS_NAME) :
-    (step tbl (shade b) (.msg c m0)).out = (step tbl b (.msg c m0)).out ∧
-    (step tbl (shade b) (.msg c m0)).bus = shade (step tbl b (.msg c m0)).bus :=
+    (step tbl (shade none b) (.msg c m0)).out = (step tbl b (.msg c m0)).out ∧
+    (step tbl (shade none b) (.msg c m0)).bus = shade none (step tbl b (.msg c m0)).bus :=
   dispatch_peer_traffic_shade tbl b c x m0 hx hmon hname hdest
 
 /-- the side condition is what `BecomeMonitor` establishes: the new monitor is left without ordinary rules -/
